@@ -39,8 +39,12 @@ def pow2(v):
 # ------------------------------------------------------------- parameters
 LAM_SPECIAL = [0., 1e-11, -1e-11, 1.0001e-10, -1.0001e-10, 2e-10, -2e-10,
                1e-8, 1e-6, 1e-3, -1e-3, 0.5, 1., 2., 3., -1.]
+# (isclose(lam, 2) holds up to |lam - 2| = 1e-8 + 2e-5; isclose(lam, 0) up
+# to 1e-8)
 YJ_SPECIAL = [0., 1e-9, -1e-9, 2e-8, -2e-8, 2., 2 - 1e-9, 2 + 1e-9,
-              2 - 1e-6, 2 + 1e-6, 2 - 1e-4, 2 + 1e-4, -1., 3., 1., 0.5, 1.5]
+              2 - 1e-6, 2 + 1e-6, 2 - 1e-4, 2 + 1e-4, -1., 3., 1., 0.5, 1.5,
+              2 - 1e-5, 2 + 1e-5, 2 - 2e-5, 2 + 2e-5, 2 - 2.1e-5, 2 + 2.1e-5,
+              1e-5, -1e-5]
 MANLY_SPECIAL = [0., 1e-3, -1e-3, 5., -5., 1., 0.1]
 
 
@@ -179,7 +183,7 @@ def getp(t, name):
 
 
 # ------------------------------------------------------------- domain points
-def points(t, case, setting):
+def points(t, case, setting, abs_guard=True):
     """Domain points for the current parameter values of t.
 
     Returns dict with
@@ -198,7 +202,13 @@ def points(t, case, setting):
     if cls == "Logit":
         lower, ld = getp(t, "lower"), getp(t, "logdelta")
         delta = math.exp(ld)
-        eta = max(4e8 * eps * (abs(lower) + delta) / delta, 1e-9 / delta)
+        # relative position of the points closest to the ends: rounding of
+        # lower + delta*p; the Jacobian also has an absolute 1e-10 guard at
+        # both ends (abs_guard)
+        eta = 4e8 * eps * (abs(lower) + delta) / delta
+        if abs_guard:
+            eta = max(eta, 1e-9 / delta)
+        eta = max(eta, 1e-13)
         if eta >= 0.25:
             # x - lower is ill conditioned on more than 3/4 of the interval
             raise Skip()
